@@ -81,6 +81,21 @@ def run_case(ctx, case):
             l2(rec, "curve.eval.seq", case, vals, want, ok)
             if not ok:
                 rec.violation("sequence evaluation differs from pointwise definition", case, observed=ser(vals), expected=ser(want))
+    if exact:
+        # float parameters on exact knots: the float nearest to a rational knot lies on one definite side of it
+        for k in sorted(set(U))[1:-1]:
+            uf = float(k)
+            ue = frac(uf)
+            if ue == k or not (U[0] <= ue <= U[-1]):
+                continue
+            r = impl(lambda: curve(uf))
+            mm = drv.call("curve.def", *curve_args(U, P, W), [ue])
+            l3(rec, "curveDef-float-parameter")
+            if r[0] != "ok":
+                rec.violation("evaluation raised at a float parameter inside the interval", case, u=repr(uf), observed=r[1])
+            elif not pts_close([pt_canon(r[1])], [tuple(mm[1][0])], F(1, 10**9)):
+                rec.violation("curve(u) at the float next to a knot differs from sum R_i(u) P_i", case, u=repr(uf),
+                              observed=ser(pt_canon(r[1])), expected=ser(tuple(mm[1][0])))
     if outside and inside:
         r = impl(lambda: curve([usi[0]] + [conv(outside[0])] if rep != "fraction" else [us[0], outside[0]]))
         if errkind(r) != "ValueError":
@@ -109,7 +124,7 @@ def run(ctx):
         W = rand_weights(rng, npts)
         if rep in ("float", "npfloat") and W is not None:
             W = [F(rng.randint(2, 50), 10) for _ in range(npts)]
-        us = params_for(rng, U)
+        us = params_for(rng, U) + (hair_params(U) if rep == "fraction" else [])
         if i % 5 == 0:
             us += [U[0] - F(1, 7), U[-1] + F(3, 1000)]
         run_case(ctx, ser(dict(kind="eval", U=U, P=P, W=W, us=us, rep=rep)))
